@@ -58,7 +58,7 @@ func checkC11(c *Ctx) {
 		if fn := get("FoldProof"); fn != nil {
 			RequireFacts(c, p, "C11.guard", fn, AcceptNilErr, nil, []Req{
 				{"LenEq(digests,claims)", `^len\(p0\) == len\(p1\.ClaimedValues\)$`},
-				{"fold-ok", `^noerr fold\(p0,p1\.ClaimedValues,`},
+				{"fold-ok", `^noerr fold\((.*,)?p0,(.*,)?p1\.ClaimedValues[,)]|^noerr fold\((.*,)?p1\.ClaimedValues,(.*,)?p0[,)]`},
 			})
 			RequireFacts(c, p, "C11.bind", fn, AcceptNilErr, nil, []Req{
 				{"gamma(point,digests,values,hash,data)", `^noerr deriveGamma\(p2,p0,p1\.ClaimedValues,p3,p4\)$`},
@@ -75,7 +75,7 @@ func checkC11(c *Ctx) {
 				{"LenEq(digests,proofs)", `^len\(p0\) == len\(p1\)$`},
 				{"LenEq(digests,points)", `^len\(p0\) == len\(p2\)$`},
 				{"NonEmpty", `^0 != len\(p0\)$`},
-				{"verified", `^noerr Verify\(p0\[0\],p1\[0\],p2\[0\],p3\)$|^ok PairingCheckFixedQ\(\[fold\(p0,.*\)#0,local:G1Affine\],p3\.Lines\)#0$`},
+				{"verified", `^noerr Verify\(p0\[0\],p1\[0\],p2\[0\],p3\)$|^ok PairingCheckFixedQ\(\[fold\((.*,)?p0[,)].*#0,local:G1Affine\],p3\.Lines\)#0$`},
 			})
 		}
 		if fn := get("deriveGamma"); fn != nil {
